@@ -392,6 +392,10 @@ func GenNames(r *rand.Rand, rs *RuleSet, allowUnknown bool) []string {
 
 // GenDAG produces a layering over the rule names with empty layers, unknown names, repeats.
 func GenDAG(r *rand.Rand, rs *RuleSet) [][]string {
+	if r.Intn(14) == 0 {
+		// exactly one layer, and no existing rule in it: everything is skipped, nothing fails
+		return [][][]string{{{"ghost_a", "ghost_b"}}, {{}}, {{"ghost_a"}}}[r.Intn(3)]
+	}
 	nl := r.Intn(6)
 	names := rs.Names()
 	dag := make([][]string, 0, nl)
